@@ -26,3 +26,11 @@ package graphsync
 //@   ensures c == 33 ==> dyntype(result) == typetag("RequestFailedLegalErr")
 //@   ensures c == 32 ==> dyntype(result) == typetag("RequestFailedUnknownErr")
 //@   ensures c == 35 ==> dyntype(result) == typetag("RequestCancelledErr")
+
+//@ -- the connection-manager tag of a request is a fixed function of its ID (and distinct IDs have distinct tags)
+//@ fn tagOf(id ref) ref
+//@ axiom tag_injective: forall a ref, b ref {tagOf(a), tagOf(b)} :: tagOf(a) == tagOf(b) ==> a == b
+//@ func RequestID.Tag
+//@   assumed
+//@   modifies nothing
+//@   ensures result == tagOf(r)
